@@ -403,7 +403,17 @@ func cmdCheck(args []string) int {
 			continue
 		}
 		// confirm by replaying five times without the explorer
-		if jobs[v.Job].Spec != nil {
+		if jobs[v.Job].Spec != nil && sig == explore.IsolationSignature {
+			for i := 0; i < 2; i++ {
+				if _, again := explore.IsolationCheck(jobs[v.Job].Spec); !again {
+					fmt.Printf("HARNESS-ERROR violation %s did not reproduce\n", sig)
+					broken = true
+				}
+			}
+			if broken {
+				continue
+			}
+		} else if jobs[v.Job].Spec != nil {
 			confirmed := 0
 			for i := 0; i < 5; i++ {
 				vs, err := explore.Replay(jobs[v.Job].Spec, v.Violation.Path)
@@ -583,6 +593,14 @@ func cmdReplay(args []string) int {
 		return 2
 	}
 	explore.Verbose = os.Getenv("FXMC_VERBOSE") != ""
+	if rf.Violation.Signature == explore.IsolationSignature {
+		if diff, again := explore.IsolationCheck(jobs[rf.Job].Spec); again {
+			fmt.Printf("violation oracle=discarded-execution-leaves-no-trace\n  %s\nVIOLATION property=%s replay=%s\n", diff, rf.Property, args[0])
+			return 1
+		}
+		fmt.Println("replay completed: recorded violation did not recur")
+		return 0
+	}
 	vs, err := explore.Replay(jobs[rf.Job].Spec, rf.Violation.Path)
 	if err != nil {
 		fmt.Println("replay error:", err)
